@@ -2,6 +2,7 @@ package main
 
 import (
 	"bytes"
+	"encoding/json"
 	"fmt"
 	"math/big"
 	"math/rand"
@@ -13,6 +14,7 @@ import (
 	"github.com/zenon-network/go-zenon/chain/store"
 	"github.com/zenon-network/go-zenon/common/db"
 	"github.com/zenon-network/go-zenon/common/types"
+	"github.com/zenon-network/go-zenon/consensus"
 	"github.com/zenon-network/go-zenon/vm/constants"
 	"github.com/zenon-network/go-zenon/vm/embedded/definition"
 	"github.com/zenon-network/go-zenon/wallet"
@@ -226,6 +228,53 @@ func isUserBlock(b *nom.AccountBlock) bool {
 	return (b.BlockType == nom.BlockTypeUserSend || b.BlockType == nom.BlockTypeUserReceive) && !types.IsEmbeddedAddress(b.Address)
 }
 
+// a competing block of the same account for the same height: the owner signs a second send (other data bytes or
+// another amount) on the same predecessor. It is NOT on the producer's chain; a node that heard of it through gossip
+// (whichever of the two wins the pool's priority rule) must still accept the producer's momentum. In the model it is a
+// Gossip event with an identifier that does not occur in the chain.
+func sibling(rng *rand.Rand, orig *nom.AccountBlock, wantSmaller bool) *nom.AccountBlock {
+	if orig.BlockType != nom.BlockTypeUserSend || types.IsEmbeddedAddress(orig.ToAddress) {
+		return nil
+	}
+	var kp *wallet.KeyPair
+	for _, u := range users {
+		if u.Address == orig.Address {
+			kp = u
+		}
+	}
+	if kp == nil {
+		return nil
+	}
+	for try := 0; try < 40; try++ {
+		s := WireCopyBlock(orig)
+		if len(s.Data) > 0 {
+			s.Data = append([]byte{}, s.Data...)
+			s.Data[rng.Intn(len(s.Data))] ^= byte(1 + rng.Intn(255))
+		} else if s.Amount.Cmp(big.NewInt(40)) > 0 {
+			s.Amount = new(big.Int).Sub(s.Amount, big.NewInt(int64(1+try)))
+		} else {
+			return nil
+		}
+		Sign(s, kp)
+		if s.Hash == orig.Hash {
+			continue
+		}
+		if (bytes.Compare(s.Hash.Bytes(), orig.Hash.Bytes()) < 0) == wantSmaller {
+			return s
+		}
+	}
+	return nil
+}
+
+func consensusAnswers(cs consensus.Consensus) string {
+	rd := cs.FrontierPillarReader()
+	st, err1 := rd.EpochStats(0)
+	w, err2 := rd.GetPillarWeights()
+	j1, _ := json.Marshal(st)
+	j2, _ := json.Marshal(w)
+	return fmt.Sprintf("%s|%s|%v|%v", j1, j2, err1 == nil, err2 == nil)
+}
+
 func randomSchedule(rng *rand.Rand, out *Out, chainD []*nom.DetailedMomentum, tag string) *receiver {
 	r := &receiver{b: OpenBare(""), allOk: true}
 	n := len(chainD)
@@ -251,7 +300,37 @@ func randomSchedule(rng *rand.Rand, out *Out, chainD []*nom.DetailedMomentum, ta
 			if rng.Intn(3) == 0 {
 				rng.Shuffle(len(cand), func(i, j int) { cand[i], cand[j] = cand[j], cand[i] })
 			}
+			// competing siblings of some of the upcoming user sends, gossiped before or after the genuine block
+			withSib := cand[:0:0]
 			for _, b := range cand {
+				var sb *nom.AccountBlock
+				if rng.Intn(3) == 0 {
+					sb = sibling(rng, b, rng.Intn(2) == 0)
+				}
+				switch {
+				case sb == nil:
+					withSib = append(withSib, b)
+				case rng.Intn(3) == 0:
+					withSib = append(withSib, b, sb)
+				case rng.Intn(2) == 0:
+					withSib = append(withSib, sb, b)
+				default:
+					withSib = append(withSib, sb) // only the sibling is heard of before the momentum arrives
+				}
+				if sb != nil {
+					ahead[sb.Hash] = -1
+				}
+			}
+			cand = withSib
+			for _, b := range cand {
+				if ahead[b.Hash] == -1 {
+					if r.gossip(b, true) {
+						out.Count("replay:gossip-accepted:sibling-of-a-chain-block")
+					} else {
+						out.Count("replay:gossip-refused:sibling-of-a-chain-block")
+					}
+					continue
+				}
 				if r.gossip(b, true) {
 					out.Count("replay:gossip-accepted")
 					kind := "user"
@@ -287,6 +366,13 @@ func randomSchedule(rng *rand.Rand, out *Out, chainD []*nom.DetailedMomentum, ta
 			break
 		}
 		out.Count("replay:deliver")
+		if rng.Intn(3) == 0 {
+			// read-only consensus queries in the middle of the replay (RPC traffic): they must not change anything
+			rd := r.b.Cs.FrontierPillarReader()
+			_, _ = rd.EpochStats(0)
+			_, _ = rd.GetPillarWeights()
+			out.Count("replay:read-only-consensus-queries")
+		}
 		if rng.Intn(6) == 0 {
 			r.restart()
 			out.Count("replay:restart")
@@ -309,6 +395,7 @@ func replayHistory(rng *rand.Rand, out *Out, first bool) {
 	chainD := DetailedRange(a.Ch, 2, fr.Height)
 	chainT := chainTerm(chainD)
 	refDump := dumpStore(a.Ch.GetFrontierMomentumStore())
+	refStats := consensusAnswers(a.Cs)
 
 	var rs []*receiver
 	for i := 0; i < 3; i++ {
@@ -322,6 +409,9 @@ func replayHistory(rng *rand.Rand, out *Out, first bool) {
 		out.Oracle(f.Hash == fr.Hash, "replay-frontier-hash-equal", M{"producer": fmt.Sprint(fr.Identifier()), "receiver": fmt.Sprint(f.Identifier())})
 		d := dumpStore(r.b.Ch.GetFrontierMomentumStore())
 		out.Oracle(bytes.Equal(d, refDump), "replay-ledger-dump-equal", M{"first_difference": firstDiff(refDump, d), "size": len(d)})
+		// "answer every query identically": the consensus statistics of the running epoch and the pillar weights
+		es := consensusAnswers(r.b.Cs)
+		out.Oracle(es == refStats, "replay-consensus-answers-equal", M{"producer": refStats, "receiver": es})
 	}
 	// directed schedule: a block that acknowledges a momentum well below the momentum containing it is gossiped as early
 	// as possible, i.e. when the receiver's frontier IS the acknowledged momentum; the producer executed it much later
